@@ -314,6 +314,10 @@ func (its *PushPullHandler) processSubscribeOrCreate(code pushPullCase) errors.O
 			return its.createDatatype()
 		case caseAllMatchedNotSubscribed:
 			return its.subscribeDatatype()
+		case caseAllMatchedSubscribed:
+			if its.datatypeDoc.DUID != its.DUID { // a subscription whose response was lost is served again
+				return its.subscribeDatatype()
+			}
 		}
 	} else if its.gotOption.HasSubscribeBit() {
 		switch code {
@@ -322,6 +326,9 @@ func (its *PushPullHandler) processSubscribeOrCreate(code pushPullCase) errors.O
 		case caseUsedDUID:
 		case caseMatchKeyNotType:
 		case caseAllMatchedSubscribed:
+			if its.datatypeDoc.DUID != its.DUID { // a subscription whose response was lost is served again
+				return its.subscribeDatatype()
+			}
 		case caseAllMatchedNotSubscribed:
 			return its.subscribeDatatype()
 		case caseAllMatchedNotVisible:
